@@ -588,10 +588,15 @@ pub fn range_edge_text(k: FloatKind, rx: Radices, point: u8, exp_char: u8) -> Bo
 pub fn beyond_range_text(k: FloatKind, rx: Radices, point: u8, exp_char: u8) -> BoxedStrategy<(Vec<u8>, &'static str)> {
     let dpb = rx.digits_per_base().unwrap() as i64;
     let emax1 = (k.max_exp_field() as i64 - 1) - k.bias() + 1; // 2^emax1 is the first power of two out of range
-    (any::<u64>(), -2i64..5, prop_oneof![3 => 1usize..6, 3 => 6usize..25, 1 => 25usize..80, 1 => Just(10_000usize)], layout(), any::<bool>(), prop_oneof![4 => Just(false), 1 => Just(true)], 1i64..7)
+    // mostly within a few binades of the range ends, sometimes up to 80 binades beyond them (a shift count or a
+    // table index that is only wrong for one binade far outside the range: seeded change C10-I)
+    (any::<u64>(), prop_oneof![4 => -2i64..5, 1 => 5i64..80], prop_oneof![3 => 1usize..6, 3 => 6usize..25, 1 => 25usize..80, 1 => Just(10_000usize)], layout(), any::<bool>(), prop_oneof![3 => Just(false), 1 => Just(true)], prop_oneof![2 => 1i64..7, 3 => 7i64..80])
         .prop_map(move |(m, j, keep, lay, neg, under, down)| {
             if under {
-                let (mut c, _) = value_canon(k, rx, 1 + (m % 3), 400);
+                // the smallest subnormals, or a small multiple of the smallest one (so that, together with the
+                // scale below, every binade down to about 2^-260 below the range is reached)
+                let sub = if m & 4 == 0 { 1 + (m % 3) } else { 1 + ((m >> 8) % 4096) };
+                let (mut c, _) = value_canon(k, rx, sub, 400);
                 c.eb -= down;
                 c.neg = neg;
                 return (render_canon(&c, rx, point, exp_char, &lay), "below-subnormal");
